@@ -236,7 +236,7 @@ def all_families(nws=(1, 2, 3)):
         out += select_cases(nw)
         out += failure_cases(nw)
         out += [request_reply(nw, 1), request_reply(nw, 2), message_during_spawn(nw), send_to_finished(nw), filter_fails(nw),
-                abandoned_await(nw), abandoned_await_msg(nw)]
+                abandoned_await(nw), abandoned_await_msg(nw), fail_multi_worker_select(nw), fail_already_failed_multi(nw)]
         out += heap_cases(nw)
         out += [bin_final_send(nw), bin_final_send_tuple(nw)]
         out += ref_cases(nw)
@@ -485,3 +485,130 @@ def bin_final_send_tuple(nw=2):
                [select(1, recv(("btup",))), ret(r(1))],
                [select(3, aw(1)), ret(t(r(3), r(2)))]]
     return meta(scenario("bin_final_send_tuple_w%d" % nw, scripts, nw=nw), True, True, ["C06"])
+
+
+# ---------------------------------------------------------------- seeded random scenarios
+def random_scenario(seed, nw=2):
+    """A random but well-typed system: 2-4 spawned processes, each a short straight-line script of receives
+    (type-only / filter, with optional timeout and await sources), sends to processes it captured, heap
+    binaries, and a result built from what it received.  Message values are pairwise distinct.  Nothing is
+    promised about termination or confluence: the state-based and per-step rules judge these runs."""
+    import random
+    rnd = random.Random(seed)
+    n = rnd.randint(2, 4)
+    counter = [0]
+
+    def fresh(kind):
+        counter[0] += 1
+        if kind == "int":
+            return c(I(100 + counter[0]))
+        if kind == "bin":
+            return hb(counter[0], 255 - counter[0])
+        return c(T(I(counter[0]), I(200 + counter[0])))
+
+    kinds = []          # receive kinds of script i (index 0 = first spawned)
+    for i in range(n):
+        kinds.append(rnd.sample(["int", "bin", "tup"], rnd.choice([0, 1, 1, 2])))
+    scripts = [None]
+    actual = {i: set() for i in range(n)}    # kinds script i really receives (its inferred receive type)
+    sent_to = {i: [] for i in range(n)}      # closed expressions sent to script i (for filter accept lists)
+    # the entry process spawns script i with the pids of all earlier ones as captures: reg j+1 = pid of script j
+    plans = []
+    for i in range(n):
+        ops, nreg = [], i + 1                 # regs 1..i hold earlier pids
+        got = []
+        for _ in range(rnd.randint(1, 3)):
+            choice = rnd.random()
+            targets = [j for j in range(i) if actual[j]]
+            if choice < 0.35 and targets and nreg < 8:
+                j = rnd.choice(targets)
+                m = fresh(rnd.choice(sorted(actual[j])))
+                sent_to[j].append(m)
+                ops.append(send(j + 1, m))
+            elif choice < 0.8 and kinds[i] and nreg < 8:
+                srcs = []
+                if i > 0 and rnd.random() < 0.3:
+                    srcs.append(aw(rnd.randint(1, i)))
+                tys = tuple(rnd.sample(kinds[i], rnd.randint(1, len(kinds[i]))))
+                actual[i].update(tys)
+                srcs.append(("recv", tys))
+                if rnd.random() < 0.4:
+                    srcs.append(tmo(rnd.choice([0, 1, 2])))
+                rnd.shuffle(srcs)
+                nreg += 1
+                ops.append(("select", nreg, srcs))
+                got.append(nreg)
+            elif nreg < 8:
+                nreg += 1
+                ops.append(let(nreg, fresh(rnd.choice(["int", "bin"]))))
+                got.append(nreg)
+        ops.append(ret(t(*[r(g) for g in got]) if got else OKE))
+        plans.append(ops)
+    # the entry process: spawn everything, send some messages, await some, return
+    main = []
+    for i in range(n):
+        main.append(spawn(i + 1, i + 2, *[r(j + 1) for j in range(i)]))
+    for _ in range(rnd.randint(0, 3)):
+        targets = [j for j in range(n) if actual[j]]
+        if targets:
+            j = rnd.choice(targets)
+            m = fresh(rnd.choice(sorted(actual[j])))
+            sent_to[j].append(m)
+            main.append(send(j + 1, m))
+    rnd.shuffle(main[n:])
+    awaited = rnd.sample(range(n), rnd.randint(1, n))
+    reg = n
+    outs = []
+    for j in awaited:
+        if reg >= 8:
+            break
+        reg += 1
+        srcs = [aw(j + 1)] + ([tmo(rnd.choice([2, 3]))] if rnd.random() < 0.5 else [])
+        main.append(select(reg, *srcs))
+        outs.append(reg)
+    main.append(ret(t(*[r(x) for x in outs])))
+    scripts[0] = main
+    # resolve receive sources now that we know what is sent to whom
+    def value_of(e):
+        return e["v"] if e["e"] == "c" else {"k": "bin", "b": e["b"]}
+    for i, ops in enumerate(plans):
+        out = []
+        for op in ops:
+            if isinstance(op, tuple) and op[0] == "select":
+                srcs = []
+                for s_ in op[2]:
+                    if isinstance(s_, tuple):
+                        cands = [value_of(m) for m in sent_to[i] if value_of(m)["k"] in
+                                 [{"int": "int", "bin": "bin", "tup": "tup"}[t_] for t_ in s_[1]]]
+                        if cands and rnd.random() < 0.4:
+                            srcs.append(recv(s_[1], acc=rnd.sample(cands, rnd.randint(1, len(cands)))))
+                        else:
+                            srcs.append(recv(s_[1]))
+                    else:
+                        srcs.append(s_)
+                out.append(select(op[1], *srcs))
+            else:
+                out.append(op)
+        scripts.append(out)
+    maxtick = 3 if any(s_["k"] == "timeout" for ops in scripts for op in ops if op["op"] == "select" for s_ in op["srcs"]) else 0
+    sc = scenario("rand_%d_w%d" % (seed, nw), scripts, nw=nw, maxtick=maxtick, maxpid=n + 1)
+    return meta(sc, False, False, ["C04", "C05", "C06", "C15"], large=True, random=True)
+
+
+def fail_multi_worker_select(nw=2):
+    # one select over processes hosted by different workers: one of them fails (its worker answers the await
+    # query with "not finished" and reports the failure right after), the other never finishes
+    # (seeded change C15-1: the first report per pid won, so the failure was dropped and the awaiter hung)
+    scripts = [[spawn(1, 2), spawn(2, 3), select(3, aw(2), aw(1)), ret(r(3))],
+               [select(1, tmo(1)), fail()],
+               [select(1, recv(("bin",))), ret(OKE)]]
+    return meta(scenario("fail_multi_worker_select_w%d" % nw, scripts, nw=nw, maxtick=1), False, False, ["C15", "C05"])
+
+
+def fail_already_failed_multi(nw=2):
+    # the failing process is already dead when it is awaited together with a live one
+    scripts = [[spawn(1, 2), spawn(2, 3), spawn(3, 4), select(4, aw(3)), select(5, aw(2), aw(1)), ret(r(5))],
+               [fail()],
+               [select(1, recv(("bin",))), ret(OKE)],
+               [select(1, tmo(2)), ret(c(I(1)))]]
+    return meta(scenario("fail_already_failed_multi_w%d" % nw, scripts, nw=nw, maxtick=2), False, False, ["C15", "C05"])
